@@ -2585,16 +2585,16 @@ def ob_evaluate_all(ctx, n_routes, n_jobs):
 # ---------------------------------------------------------------------------------------------------------------------
 # C01: task order as a hard rule
 
-def ob_tour_order_gate(ctx, k):
+def ob_tour_order_gate(ctx, k, closed=True):
     """C01 (task order as a hard rule): `TourOrderConstraint::evaluate` (real MIR incl. `evaluate_result`,
     `compare_order_results`) on a tour of k jobs whose order results (Value(v) / Default / Ignored) are symbolic and which
     is ordered as it stands: for every leg p, the target is accepted exactly when the tour with the target inserted at p
     is still ordered (no activity with a greater order before one with a smaller order; Default after every Value;
     Ignored never constrains), and a `stopped` violation implies that every later position violates the order too."""
     from symex import DynV
-    name = f'tour_order_gate[k={k}]'
+    name = f'tour_order_gate[k={k}{"" if closed else ",open"}]'
     res = Result(name)
-    res.bounds = f'closed tour of {k} jobs, every leg; order per job symbolic: Value(v) with integer v in [0,2^16], Default or Ignored'
+    res.bounds = f'{"closed" if closed else "open"} tour of {k} jobs, every leg; order per job symbolic: Value(v) with integer v in [0,2^16], Default or Ignored'
     t0 = time.time()
     fns = ctx.prog.find_method('TourOrderConstraint', 'evaluate', trait='FeatureConstraint')
     if len(fns) != 1:
@@ -2636,11 +2636,12 @@ def ob_tour_order_gate(ctx, k):
             zero, mx = FV.const(0), FV.max_value()
             acts = [env.activity(IV(0), zero, zero, mx, zero, zero, has_job=False)]
             acts += [env.activity(IV(i + 1), zero, zero, mx, zero, zero, job=singles[i]) for i in range(k)]
-            acts.append(env.activity(IV(0), zero, zero, mx, zero, zero, has_job=False))
-            rc = env.route_ctx(env.actor(IV(0), zero, IV(0), FV.const(1000)), acts, True)
+            if closed:
+                acts.append(env.activity(IV(0), zero, zero, mx, zero, zero, has_job=False))
+            rc = env.route_ctx(env.actor(IV(0), zero, IV(0) if closed else None, FV.const(1000) if closed else mx), acts, closed)
             tgt = env.activity(IV(99), zero, zero, mx, zero, zero, job=singles[k])
             acts_vec = env.field(env.field(env.field(rc, 'context::RouteContext', 'route'), 'route::Route', 'tour'), 'solution::tour::Tour', 'activities')
-            actx = activity_ctx(env, p, RefV(acts_vec, p), RefV(Cell(tgt), 0), RefV(acts_vec, p + 1))
+            actx = activity_ctx(env, p, RefV(acts_vec, p), RefV(Cell(tgt), 0), RefV(acts_vec, p + 1) if p + 1 < len(acts) else None)
             con = env.struct('tour_order::TourOrderConstraint', code=Agg('struct', [IV(7, 'i32')], 'goal::ViolationCode'),
                              order_fn=EnumV('types::Either', 0, {0: [ArcV(Cell(DynV('order')))]}))
             return eng.exec_fn(st, fns[0], [RefV(Cell(con), 0), RefV(Cell(move_ctx_activity(env, rc, actx)), 0)])
@@ -2673,7 +2674,7 @@ def ob_tour_order_gate(ctx, k):
                     def o(i):
                         kind, val = order_sym(i)
                         return {'kind': ['value', 'default', 'ignored'][_ev_int(m, kind)], 'value': _ev_int(m, val)}
-                    res.case = {'kind': 'tour_order', 'closed': True, 'shift_start': 0, 'dep0': 0, 'shift_end': 100000, 'l0': 0, 'lend': 0,
+                    res.case = {'kind': 'tour_order', 'closed': closed, 'shift_start': 0, 'dep0': 0, 'shift_end': 100000 if closed else None, 'l0': 0, 'lend': 0,
                                 'dur': [], 'dist': [], 'dur_default': 0, 'dist_default': 0, 'leg': p,
                                 'jobs': [{'loc': i + 1, 'dur': 0, 'tws': 0, 'twe': None, 'order': o(i)} for i in range(k)],
                                 'target': {'loc': 99, 'dur': 0, 'tws': 0, 'twe': None, 'order': o(k)}}
@@ -2695,7 +2696,7 @@ def ob_tour_order_gate(ctx, k):
 # ---------------------------------------------------------------------------------------------------------------------
 # capacity per reload interval (C01: "per reload interval", C05: caches, C06)
 
-def ob_capacity_reload(ctx, before, after, closed=True):
+def ob_capacity_reload(ctx, before, after, closed=True, shipment=False):
     """C01/C05/C06 with a reload in the tour: tour = start, `before` jobs, a marker (reload) activity, `after` jobs (, end).
     The intervals come from the real `get_route_intervals`; `recalculate_states` (real MIR, T := SingleDimLoad, symbolic
     stale caches) must produce, per interval, the reference profile: static deliveries of an interval are on board from its
@@ -2703,10 +2704,11 @@ def ob_capacity_reload(ctx, before, after, closed=True):
     single job with static demand at leg p exactly when the piecewise profile with the job inserted stays within capacity."""
     from symex import DynV
     k = before + after
-    name = f'capacity_reload[{before}+R+{after},{"closed" if closed else "open"}]'
+    name = f'capacity_reload[{before}+R+{after},{"closed" if closed else "open"}{",shipment-pickup" if shipment else ""}]'
     res = Result(name)
     res.bounds = (f'tour: start, {before} jobs, reload marker, {after} jobs{", end" if closed else ""}; jobs and target carry static pickup and/or static delivery '
-                  f'(single dimension, amounts in [0,2^14], capacity in [0,2^15]); every insertion leg; symbolic stale caches')
+                  f'(single dimension, amounts in [0,2^14], capacity in [0,2^15]); every insertion leg; symbolic stale caches'
+                  + ('; the inserted activity is the PICKUP task of a shipment (multi job): its load is taken to stay on board to the end of the tour, across the reload' if shipment else ''))
     t0 = time.time()
     gri = ctx.prog.find_free('route_intervals::get_route_intervals')
     rs = ctx.prog.find_method('CapacitatedMultiTrip', 'recalculate_states', trait='MultiTrip')
@@ -2745,6 +2747,14 @@ def ob_capacity_reload(ctx, before, after, closed=True):
                     return mk_option(True, RefV(Cell(self.intervals), 0), ty=dest_ty)
                 return super().dyn_call(engine, st, trait, method, args, dest_ty)
 
+            def override(self, engine, st, callee, args, dest_ty):
+                if shipment and callee.endswith('Activity::retrieve_job'):
+                    act = deref_all(args[0])
+                    job = self.field(act, 'route::Activity', 'job')
+                    if job.variant() == 1 and job.payload[1][0].cell is getattr(self, 'target_cell', None):
+                        return mk_option(True, EnumV('jobs::Job', 1, {1: [ArcV(Cell(Opaque('Multi')))]}), ty=dest_ty)
+                return super().override(engine, st, callee, args, dest_ty)
+
             def dyn_closure(self, engine, st, tag, args):
                 if tag == 'is_marker':
                     act = deref_all(args[0])
@@ -2762,6 +2772,8 @@ def ob_capacity_reload(ctx, before, after, closed=True):
             capacity = env.sym_i('capacity', 0, 2 ** 15, 'i32')
             demands = [static_demand(env, f'd{i + 1}') for i in range(k)]
             target = static_demand(env, 'target')
+            if shipment:
+                target = {'sp': IV(0, 'i32'), 'sd': IV(0, 'i32'), 'dp': env.sym_i('target_dp', 0, 2 ** 14, 'i32'), 'dd': IV(0, 'i32')}
             zero, mx = FV.const(0), FV.max_value()
             marker = ArcV(Cell(env.struct('jobs::Single', places=VecV([]), dimens=StateV({}))))
             env.marker_cell = marker.cell
@@ -2794,7 +2806,9 @@ def ob_capacity_reload(ctx, before, after, closed=True):
             eng.exec_fn(st, rs[0], [RefV(Cell(mt), 0), RefV(cell, 0, True)])
             rc = cell.v
             holder.update(capacity=capacity, seq=seq, target=target, state=env.state_of(rc))
-            tgt_act = env.activity(IV(99), zero, zero, mx, zero, zero, job=single_job(env, target))
+            tgt_job = single_job(env, target)
+            env.target_cell = tgt_job.cell
+            tgt_act = env.activity(IV(99), zero, zero, mx, zero, zero, job=tgt_job)
             acts_vec = env.field(env.field(env.field(rc, 'context::RouteContext', 'route'), 'route::Route', 'tour'), 'solution::tour::Tour', 'activities')
             n = len(acts_vec.items)
             actx = activity_ctx(env, p, RefV(acts_vec, p), RefV(Cell(tgt_act), 0), RefV(acts_vec, p + 1) if p + 1 < n else None)
@@ -2835,7 +2849,7 @@ def ob_capacity_reload(ctx, before, after, closed=True):
                 evd = lambda d: {key: _ev_int(m, d[key].t) for key in ('sp', 'dp', 'sd', 'dd')}
                 jobs_doc = [{'loc': 50, 'dur': 0, 'tws': 0, 'twe': None, 'reload': True} if x == 'R' else {'loc': 1 + i, 'dur': 0, 'tws': 0, 'twe': None, 'demand': evd(x)}
                             for i, x in enumerate(seq)]
-                return {'kind': kind_, 'closed': closed, 'shift_start': 0, 'dep0': 0, 'shift_end': 100000 if closed else None, 'l0': 0, 'lend': 0,
+                return {'kind': kind_, 'closed': closed, 'shift_start': 0, 'dep0': 0, 'shift_end': 100000 if closed else None, 'l0': 0, 'lend': 0, 'target_multi': shipment,
                         'capacity': _ev_int(m, capacity.t), 'leg': p, 'dur': [], 'dist': [], 'dur_default': 0, 'dist_default': 0, 'jobs': jobs_doc,
                         'target': {'loc': 99, 'dur': 0, 'tws': 0, 'twe': None, 'demand': evd(target)}}
             if not decide_claim(ctx, res, env, st, z3.And(*claims), assume, what=f'{name} leg {p}: load caches == piecewise reference profile'):
@@ -2843,11 +2857,16 @@ def ob_capacity_reload(ctx, before, after, closed=True):
                     res.case = case_of('capacity_caches', res.model)
                 break
             # insertion at leg p: the target goes after activity p; in the job sequence that is position p (activities are offset by the start depot)
-            post_seq = seq[:p] + [target] + seq[p:]
-            post_loads, _ = reference(post_seq)
-            post_ok = z3.And(*[l <= capacity.t for l in post_loads])
+            if shipment:
+                # the picked-up amount is on board from the insertion point to the end of the tour (the delivery position is not known yet)
+                post_ok = z3.And(*[loads[i] + target['dp'].t <= capacity.t for i in range(p, len(loads))])
+                has_demand = target['dp'].t != 0
+            else:
+                post_seq = seq[:p] + [target] + seq[p:]
+                post_loads, _ = reference(post_seq)
+                post_ok = z3.And(*[l <= capacity.t for l in post_loads])
+                has_demand = z3.Or(target['sp'].t != 0, target['sd'].t != 0)
             accepted = zs(out.discr == 0)
-            has_demand = z3.Or(target['sp'].t != 0, target['sd'].t != 0)
             if not decide_claim(ctx, res, env, st, accepted == post_ok, assume, what=f'{name} leg {p}: accepted <=> piecewise load profile after insertion within capacity'):
                 if res.status == 'violated' and res.model is not None:
                     res.case = case_of('capacity_gate_exact', res.model)
